@@ -180,6 +180,12 @@ var c05Shapes = []struct {
 	{"except", func(o, in string) string {
 		return "try {\nraise(\"E\")\n} except {\n" + o + "\n" + in + "\n}"
 	}},
+	{"condition loop", func(o, in string) string {
+		return "c := 2\nfor c > 0 {\nc := c - 1\n" + o + "\n" + in + "\n}"
+	}},
+	{"loop with continue and break", func(o, in string) string {
+		return "for c in [1, 2, 3, 4] {\nif c == 2 {\ncontinue\n}\n" + o + "\n" + in + "\nif c == 3 {\nbreak\n}\n}"
+	}},
 	{"otherwise", func(o, in string) string {
 		return "try {\nx.mark(0)\n} except {\nx.mark(9)\n} otherwise {\n" + o + "\n" + in + "\n}"
 	}},
@@ -788,7 +794,7 @@ func init() {
 			}
 			for _, s := range []string{"len()", "len(1)", "len(\"s\")", "len(null)", "add()", "add([1])", "add(1, 2)", "add({}, 1)", "del()", "del([1])", "del(1, 2)", "del([1], 1)",
 				"del([1], -1)", "del([1], \"0\")", "add([1], 2, 2)", "add([1], 2, -1)", "add([1], 2, \"0\")", "concat()", "concat([1])", "concat([1], 2)", "concat([1], [2], {})",
-				"concat([], [])", "len(concat([1], [2, 3], []))", "del({1: 2}, 1)", "del({\"1\": 2}, 1)", "len({1: 2, \"1\": 3})", "len([[1, 2]])", "add([1], [2])", "add([], null)"} {
+				"concat([], [])", "len(concat([1], [2, 3], []))", "type(1)", "type([1, null])", "type(null)", "type()", "type(\"s\")", "type(true)", "del({1: 2}, 1)", "del({\"1\": 2}, 1)", "len({1: 2, \"1\": 3})", "len([[1, 2]])", "add([1], [2])", "add([], null)"} {
 				emit("builtin argument checks", "a := "+s+"\nx.mark(a)", "a")
 			}
 			// (6) objects
